@@ -270,6 +270,11 @@ impl Fiber {
     self.state == FiberState::Pending
   }
 
+  /// Is this fiber parked waiting to be queued again
+  pub fn is_parked(&self) -> bool {
+    matches!(self.state, FiberState::Blocked | FiberState::Pending)
+  }
+
   /// Activate this fiber
   pub fn activate(&mut self) {
     assert!(matches!(
